@@ -181,7 +181,7 @@ fn emit_join(w: &mut CaseWriter, sut: &mut Sut, jc: &JoinCase, stream: &str) {
 }
 
 fn gen(a: &Args) {
-    let mut w = CaseWriter::new(&a.out, "C16", "Corr.C16", 400);
+    let mut w = CaseWriter::new(&a.out, "C16", "Corr.C16", 250);
     let mut sut = Sut::new();
     if let Some(lines) = a.replay_lines() {
         for l in lines {
